@@ -38,7 +38,7 @@ RULE = ("fault site = each layer of the transport stack (network, segments, nois
         "thread that already failed, an incoming stanza, then a disconnect + reconnect + the same follow-ups. enumerated: every "
         "(site, direction, variant) with a fixed sequence; generated: the rest. Login race: 2-4 stanzas sent right behind the handshake "
         "reply of a resumed login (1..all of them in the reply's read, the others in reads of their own, delivered up-front or while "
-        "the application callback for the first one is still running), the callback fails on the first. Non-trivial = the fault fired and was not at the "
+        "the application callback for the first one is still running), the callback fails on the first. Key-fetch fault (full clients incl. the encryption layers, one process per case): a reinstalled account receives messages from a sender that still uses its old session; the key requests this triggers are answered with an error or not at all (1-3 of them, optionally followed by a reconnect); 1-3 later messages of the sender must be delivered exactly once. Non-trivial = the fault fired and was not at the "
         "last position and a follow-up came from another thread. Distinct = distinct canonical JSON.")
 ASSUMPTIONS = [
     "a fault at or below the cipher (noise, segments, network) loses a ciphertext, which no peer can recover from on the same "
